@@ -58,10 +58,15 @@ def run_store(store):
         n += k
         hits += h
         bad += b
+    if len(store) <= 2:
+        # root spans whose "no parent" is written as the empty string
+        k, b, h = run_store_mode(store, False, empty_root=True)
+        n += k
+        bad += b
     return n, bad, hits
 
 
-def run_store_mode(store, shared):
+def run_store_mode(store, shared, empty_root=False):
     """shared: trace ids are only unique per workflow name (two workflows
     reuse the same ids); span ids stay globally unique"""
     from tel2puml.otel_to_pv.sequence_otel import \
@@ -86,6 +91,13 @@ def run_store_mode(store, shared):
         if s['parent_event_id']:
             kids.setdefault(s['parent_event_id'], set()).add(s['event_id'])
     orders = om.ingestion_orders(traces)
+    if empty_root:
+        # ingested with parent "" for roots; the store / stream must still
+        # treat them as having no parent
+        orders = {on: [dict(sp, parent_event_id="")
+                       if sp['parent_event_id'] is None else sp
+                       for sp in order] for on, order in orders.items()
+                  if on in ("seq", "rr")}
     byname = {nm: [jid_of[k] for k, (n2, _) in enumerate(store) if n2 == nm]
               for nm in names}
     # positions (in the ordered row stream) at which a trace/name group ends
@@ -138,6 +150,7 @@ def run_store_mode(store, shared):
                     if prob:
                         bad.append({"bs": bs, "order": on, "filter": fn,
                                     "consumer": consumer, "shared": shared,
+                                    "empty_root": empty_root,
                                     "problem": prob})
     return n, bad, boundary_hits
 
@@ -209,13 +222,14 @@ def collect(tier, tasks, results, ctx):
             viol.append({
                 "key": input_key(["C12", b["store"], b["bs"], b["order"],
                                   b["filter"], b["consumer"],
-                                  bool(b.get("shared"))]),
+                                  bool(b.get("shared")),
+                                  bool(b.get("empty_root"))]),
                 "what": f"store={b['store']} batch={b['bs']} order={b['order']}"
                         f" filter={b['filter']} consumer={b['consumer']}: "
                         f"{b['problem']}",
                 "input": {k: b.get(k) for k in ("store", "bs", "order",
                                                 "filter", "consumer",
-                                                "shared")},
+                                                "shared", "empty_root")},
                 "observed": b["problem"]})
     he = None
     if hits == 0:
@@ -252,5 +266,6 @@ def replay(rec, ctx):
     n, bad, _ = run_store(store)
     bad = [b for b in bad if all(b[k] == i[k] for k in
                                  ("bs", "order", "filter", "consumer"))
-           and bool(b.get("shared")) == bool(i.get("shared"))]
+           and bool(b.get("shared")) == bool(i.get("shared"))
+           and bool(b.get("empty_root")) == bool(i.get("empty_root"))]
     return bool(bad), repr([b["problem"] for b in bad])[:300]
